@@ -191,6 +191,9 @@ type TcbOutcome struct {
 	PlatformLevel int // index of the selected platform level, -1 if none
 	ModuleLevel   int // index of the selected module level, -1 if none / not applicable
 	ModuleBranch  bool
+	// MalformedLevel: some platform level does not carry two lists of 16 components. Such a level never matches in
+	// this model; a verifier that refuses the whole document instead is equally acceptable (see the check).
+	MalformedLevel bool
 }
 
 func hexEqFold(a, b string) bool {
@@ -244,7 +247,15 @@ func TcbModel(w *World) TcbOutcome {
 	if out.ModuleBranch {
 		start = 2
 	}
+	for _, l := range d.Levels {
+		if l.Malformed() {
+			out.MalformedLevel = true
+		}
+	}
 	for li, l := range d.Levels {
+		if l.Malformed() {
+			continue
+		}
 		ok := l.PceSvn <= w.Sgx.PceSvn
 		for i := 0; i < 16 && ok; i++ {
 			if l.Sgx[i] > w.Sgx.Comp[i] {
